@@ -26,15 +26,16 @@ def worker(ck: Check, job):
     var_outer = parts_text(word_slots, ws_slots[1:k], lead=ws_slots[0], trail=ws_slots[k])
     name = '%s:thr=%s' % (code, thr)
     exb = text_executor(ck, assm)
-    Ob = merged_occs(text_find(exb, L, base, thr))
+    cov = []
+    Ob = merged_occs(text_find(exb, L, base, thr), cov)
     ck.absorb(exb)
-    vb = H.merged_result(text_validate(exb, L, base))
+    vb = merged(cov, text_validate(exb, L, base))
     bad = [('panic (baseline): %s %s at %s' % (p.kind, p.msg, p.where), c) for p, c in zip(exb.panics, conds_of(exb.panics))]
     runs = {}
     for label, txt, shift in (('inner', var_inner, 0), ('outer', var_outer, 1)):
         exv = text_executor(ck, assm)
-        Ov = merged_occs(text_find(exv, L, txt, thr))
-        vv = H.merged_result(text_validate(exv, L, txt))
+        Ov = merged_occs(text_find(exv, L, txt, thr), cov)
+        vv = merged(cov, text_validate(exv, L, txt))
         ck.absorb(exv)
         runs[label] = txt
         bad.append(('occurrences change when whitespace is substituted (%s)' % label, z3.Not(occs_equal(Ob, Ov, shift_a=shift, shift_b=0))))
@@ -58,7 +59,7 @@ def worker(ck: Check, job):
         return {'key': {'lang': code, 'kind': 'ascii-whitespace' if asciiws else 'unicode-whitespace'}, 'reproduced': differs,
                 'replay': rep, 'what': '%s thr=%s: %r gives %r / %r but %r gives %r / %r' % (
                     code, thr, tb, ob, vb_.get('ok'), tv, ov, vv_.get('ok'))}
-    ck.prove_none(name, assm, bad, on_cex, lambda m, c: None)
+    ck.prove_none(name, assm, guard(cov, bad), on_cex, lambda m, c: None)
     ck.cover(name + ':number-found', assm + [z3.UGE(B64(Ob.len), 1), z3.Or(*[x >= 6 for x in s[1:k]])],
              lambda m: {'lang': code, 'variant': concrete_text(var_outer, m)[0]})
     ck.bounds['text_words'] = k
